@@ -11,6 +11,7 @@ pub mod pdfwrite;
 pub mod report;
 pub mod rng;
 pub mod util;
+pub mod extract;
 mod registry;
 pub use registry::*;
 
@@ -21,6 +22,10 @@ fn main() {
     if args.len() < 2 {
         eprintln!("usage: pdfverif <property> --tier quick|thorough --seed N --driver PATH --out FILE [--replay FILE]");
         std::process::exit(2);
+    }
+    if args[1] == "extract" {
+        // the translator (DESIGN.md §2.2): pdfverif extract --out-dir <lean/PdfModel/Generated>
+        std::process::exit(extract::main(&args[2..], &util::repo_root()));
     }
     let prop = args[1].clone();
     if prop == "docgen-stats" {
